@@ -67,6 +67,29 @@ MUTATION_DRILLS = [
               "table_ok false"},
 ]
 
+MUTATION_DRILLS += [
+    {"mutation": "the hand-over before the repair (/repo c6a26de, i.e. 9f55844 reverted): StartWork tests IsWorking(), Run ends with "
+                 "`while (HasPendingTasks())`, no running_",
+     "ran": "VERIF_REPO=/var/tmp/wt-c15 (worktree at c6a26de) VERIF_CACHE=/var/tmp/rime-verif-c15 bin/check C15 quick, with the finding entry at status fixed",
+     "fired": "VIOLATION with failing input exit-window:tasks-scheduled-while-worker-exiting-not-run (1 SU:111 SU:111 J IM | "
+              "cccccccccwwwwwwwwwwwwwwwwwwwcwcc: sched:5 ret:SU:0 done ret:J:0 ret:IM:0 with task 5 never run; 45 schedules incl. the "
+              "witnesses window_sync/window_start_maintenance and, by tolerant replay, the two corpus/C15 exit-window schedules); "
+              "handover_fact = HFuture, Properties_C15.v fails at C15_table_recognised (Unable to unify HFlag with HFuture); 0 mismatches: "
+              "the model follows the old hand-over"},
+    {"mutation": "deployer.cc (on 4978e15): FinishWork() only returns pending_tasks_.empty() under the lock; `running_ = false` moved into "
+                 "Run() after RIME_VERIF_RUN_RETURN in a critical section of its own (exit test and hand-over no longer atomic; compiles, "
+                 "87 unit tests unaffected)",
+     "ran": "same worktree at 4978e15 + the edit",
+     "fired": "VIOLATION with failing input exit-window:tasks-scheduled-while-worker-exiting-not-run (same schedule, 45 schedules): the "
+              "statement skeletons and the table are HUnrecognised, the model falls back to the old hand-over, whose window the mutant has; "
+              "Properties_C15.v no longer checks"},
+    {"mutation": "deployer.cc (on 4978e15): std::lock_guard removed from FinishWork()",
+     "ran": "same worktree at 4978e15 + the edit",
+     "fired": "VIOLATION no-failing-input-found: FinishWork's rows carry no lock -> handover_of_table and handover_fact HUnrecognised, "
+              "table_shape_ok false, Properties_C15.v no longer checks; 305 stuck / 187 differing schedules (the library still follows the "
+              "running_ protocol at the hooks while the model refuses to assume it); 3 s of TSan stress did not hit the race"},
+]
+
 CALLS = ["SM", "SU", "IM", "J", "C", "K", "G", "F", "D", "H1", "H0"]
 
 
